@@ -1,5 +1,927 @@
-// C02 C03 C04 C15 oracles over the device level history (placeholder, filled in below)
+// C02 C03 C04 C15 oracles.  One monitor walks the recorded history in order and judges every transmission of
+// ebusd by what ebusd could know at that instant (the bytes the kernel had handed it), using generative reference
+// automata for the master role (own requests) and the slave role (answer mode).
+#include <stdio.h>
+#include <stdlib.h>
+
+#include <deque>
+#include <map>
+#include <set>
+
 #include "h_l1.h"
+#include "ref_enh.h"
+
 namespace l1 {
-void checkActive(const RunData& rd, hz::RunResult* res) { (void)rd; (void)res; }
+
+using ref::Bytes;
+using sim::Ev;
+using sim::MS;
+
+namespace {
+
+// ---------------------------------------------------------------------------------------------
+// master role reference: what ebusd must transmit for one request, as a function of what it receives
+// ---------------------------------------------------------------------------------------------
+struct MasterRef {
+  Bytes master;            // unescaped QQ ZZ PB SB NN D..
+  Bytes wire;              // bytes still to be transmitted in the current attempt
+  enum St { SEND, WAIT_ACK, RECV_RESP, SEND_RESPACK, SEND_NAK_OR_SYN, OPT_SYN, SEND_SYN, DONE, FAILED } st = SEND;
+  int attempt = 0, respAttempt = 0;
+  size_t pos = 0;
+  Bytes resp;              // unescaped response so far
+  bool respEsc = false;
+  uint8_t respCrc = 0;
+  bool respCrcOk = false;
+  bool valid = false;
+  Bytes slave;
+  const char* failWhy = "";
+
+  explicit MasterRef(const Bytes& m) : master(m) {
+    Bytes rest(m.begin() + 1, m.end());
+    wire = ref::escaped(rest);
+    ref::escapeInto(ref::crcOf(m), &wire);
+  }
+  uint8_t zz() const { return master[1]; }
+  // -1: nothing may be sent (waiting); -2: NAK or SYN; -3: SYN optional; >=0: exactly this byte
+  int nextTx() const {
+    switch (st) {
+      case SEND: return wire[pos];
+      case SEND_RESPACK: return respCrcOk ? ref::ACK : ref::NAK;
+      case SEND_NAK_OR_SYN: return -2;
+      case OPT_SYN: return -3;
+      case SEND_SYN: return ref::SYN;
+      default: return -1;
+    }
+  }
+  bool accepts(uint8_t b) const {
+    int n = nextTx();
+    if (n >= 0) return n == b;
+    if (n == -2) return b == ref::NAK || b == ref::SYN;
+    if (n == -3) return b == ref::SYN;
+    return false;
+  }
+  void fail(const char* why) { if (st != DONE) { st = FAILED; failWhy = why; } }
+  // the transmitted byte b was echoed correctly
+  void onEchoOk(uint8_t b) {
+    switch (st) {
+      case SEND:
+        pos++;
+        if (pos >= wire.size()) {
+          if (zz() == ref::BROADCAST) { valid = true; st = SEND_SYN; }
+          else st = WAIT_ACK;
+        }
+        break;
+      case SEND_RESPACK:
+        if (respCrcOk) { valid = true; slave = resp; st = SEND_SYN; }
+        else { respAttempt = 1; resp.clear(); respEsc = false; respCrc = 0; st = RECV_RESP; }
+        break;
+      case SEND_NAK_OR_SYN:
+        st = b == ref::SYN ? DONE : OPT_SYN;
+        break;
+      case OPT_SYN:
+      case SEND_SYN:
+        st = DONE;
+        break;
+      default:
+        break;
+    }
+  }
+  void onRx(uint8_t b) {
+    switch (st) {
+      case WAIT_ACK:
+        if (b == ref::ACK) {
+          if (ref::isMaster(zz())) { valid = true; st = SEND_SYN; }
+          else { st = RECV_RESP; resp.clear(); respEsc = false; respCrc = 0; }
+        } else if (b == ref::NAK && attempt == 0) {
+          attempt = 1;
+          wire = ref::escaped(master);
+          ref::escapeInto(ref::crcOf(master), &wire);
+          pos = 0;
+          st = SEND;
+        } else {
+          fail(b == ref::NAK ? "second NAK" : "no ACK");
+        }
+        break;
+      case RECV_RESP: {
+        bool complete = !resp.empty() && resp.size() == static_cast<size_t>(resp[0]) + 1;
+        uint8_t u = b;
+        if (respEsc) {
+          if (b > 1) { fail("invalid escape in response"); return; }
+          u = b == 0 ? ref::ESC : ref::SYN;
+          respEsc = false;
+          if (!complete) respCrc = ref::crcStep(respCrc, b);
+        } else if (b == ref::ESC) {
+          respEsc = true;
+          if (!complete) respCrc = ref::crcStep(respCrc, b);
+          return;
+        } else if (!complete) {
+          respCrc = ref::crcStep(respCrc, b);
+        }
+        if (!complete) { resp.push_back(u); return; }
+        // u is the CRC
+        respCrcOk = u == respCrc;
+        if (respCrcOk || respAttempt == 0) st = SEND_RESPACK;
+        else st = SEND_NAK_OR_SYN;
+        break;
+      }
+      default:
+        break;
+    }
+  }
+};
+
+// ---------------------------------------------------------------------------------------------
+// slave role reference (answer mode)
+// ---------------------------------------------------------------------------------------------
+struct SlaveRef {
+  enum St { NONE, SEND_ACK, SEND_NAK, WAIT_REPEAT, SEND_RESP, WAIT_RESP_ACK, DONE, FAILED } st = NONE;
+  Bytes master;     // the received command (unescaped)
+  Bytes wire;       // response on the wire: escaped(NN D..) + crc
+  size_t pos = 0;
+  int respAttempt = 0;
+  bool toMaster = false;
+  bool completed = false, reported = false;
+  int nextTx() const {
+    switch (st) {
+      case SEND_ACK: return ref::ACK;
+      case SEND_NAK: return ref::NAK;
+      case SEND_RESP: return wire[pos];
+      default: return -1;
+    }
+  }
+};
+
+struct DevEv {
+  enum Type { RX, TX, ARBSTART, ARBCANCEL, TIMEOUT, IOERR, CLOSED, OPENED, OTHER } type = OTHER;
+  int64_t t = 0;
+  uint8_t b = 0;
+  int arb = 0;             // RX (enhanced): 1 won, 2 lost
+  bool lastOfChunk = true;
+  size_t histIndex = 0;    // for OTHER: index of the history event
+};
+
+// Turns the history into device level events.  Symbols are taken from the bytes the kernel handed over (and, for the
+// enhanced device, the reference decoder); ebusd's own per-symbol notification is used only to place each symbol
+// at the point of the history where ebusd's protocol layer actually looked at it (a read() may return several).
+std::vector<DevEv> extract(const RunData& rd, hz::RunResult* res) {
+  std::vector<DevEv> out;
+  refenh::Decoder rxDec;
+  int txFirst = -1;
+  std::deque<DevEv> fifo;   // symbols read but not yet looked at by the protocol layer
+  auto flush = [&]() { while (!fifo.empty()) { DevEv d = fifo.front(); fifo.pop_front(); d.lastOfChunk = fifo.empty(); out.push_back(d); } };
+  for (size_t i = 0; i < rd.hist.evs.size(); i++) {
+    const Ev& e = rd.hist.evs[i];
+    DevEv d;
+    d.t = e.t;
+    d.histIndex = i;
+    switch (e.kind) {
+      case sim::EV_READ:
+        if (!rd.bc.enhanced) {
+          for (size_t k = 0; k < e.bytes.size(); k++) {
+            d.type = DevEv::RX;
+            d.b = e.bytes[k];
+            fifo.push_back(d);
+          }
+        } else {
+          std::vector<refenh::Event> evs;
+          for (size_t k = 0; k < e.bytes.size(); k++) rxDec.feed(e.bytes[k], k, &evs);
+          for (size_t k = 0; k < evs.size(); k++) {
+            const refenh::Event& ev = evs[k];
+            if (ev.kind == refenh::Event::SYMBOL) {
+              d.type = DevEv::RX;
+              d.b = ev.value;
+              d.arb = ev.arb;
+              fifo.push_back(d);
+            } else if (ev.kind == refenh::Event::RESET || (ev.kind == refenh::Event::DIAG && ev.cmd != 0)) {
+              // adapter reset or error frame: a running arbitration is over, ebusd knows about a device problem
+              DevEv x = d;
+              x.type = DevEv::IOERR;
+              fifo.push_back(x);
+            }
+          }
+        }
+        break;
+      case sim::EV_RXSYM:
+      case sim::EV_TXSYM: {
+        // a TXSYM marker matters only for the enhanced device (STARTED is notified as a sent symbol)
+        if (e.kind == sim::EV_TXSYM && !(rd.bc.enhanced && !fifo.empty() && fifo.front().type == DevEv::RX && fifo.front().arb == refenh::ARB_WON)) break;
+        // release everything up to and including the symbol ebusd is looking at now
+        size_t k = 0;
+        while (k < fifo.size() && !(fifo[k].type == DevEv::RX && fifo[k].b == static_cast<uint8_t>(e.a))) k++;
+        if (k >= fifo.size()) { res->counters["l1.symbol_marker_unmatched"]++; break; }
+        for (size_t q = 0; q <= k; q++) {
+          DevEv x = fifo.front();
+          fifo.pop_front();
+          if (q < k && x.type == DevEv::RX) { res->counters["l1.symbol_skipped_by_device_layer"]++; continue; }
+          x.lastOfChunk = fifo.empty();
+          x.t = e.t;
+          out.push_back(x);
+        }
+        break;
+      }
+      case sim::EV_WRITE:
+        flush();
+        if (!rd.bc.enhanced) {
+          for (uint8_t b : e.bytes) { d.type = DevEv::TX; d.b = b; out.push_back(d); }
+        } else {
+          for (uint8_t c : e.bytes) {
+            if (!(c & 0x80)) { d.type = DevEv::TX; d.b = c; out.push_back(d); txFirst = -1; }
+            else if ((c & 0xC0) == 0xC0) txFirst = c;
+            else if (txFirst >= 0) {
+              uint8_t cmd = static_cast<uint8_t>((txFirst >> 2) & 0xf);
+              uint8_t data = static_cast<uint8_t>(((txFirst & 3) << 6) | (c & 0x3f));
+              txFirst = -1;
+              if (cmd == refenh::REQ_SEND) { d.type = DevEv::TX; d.b = data; out.push_back(d); }
+              else if (cmd == refenh::REQ_START) { d.type = data == ref::SYN ? DevEv::ARBCANCEL : DevEv::ARBSTART; d.b = data; out.push_back(d); }
+            }
+          }
+        }
+        break;
+      case sim::EV_POLL:
+        if (e.a == 0 && e.b == 1) { flush(); d.type = DevEv::TIMEOUT; out.push_back(d); }   // a full length wait without data
+        else if (e.a < 0) { flush(); d.type = DevEv::IOERR; out.push_back(d); }
+        break;
+      case sim::EV_FAULT:
+        // read errors and early poll returns are retried by the transport; the others are device errors known to ebusd
+        if (e.s == "writeerr" || e.s == "writeshort" || e.s == "pollerr" || e.s == "pollhup" || e.s == "polleintr" ||
+            e.s == "hup") { flush(); d.type = DevEv::IOERR; out.push_back(d); }
+        else { d.type = DevEv::OTHER; out.push_back(d); }
+        break;
+      case sim::EV_CLOSE: fifo.clear(); d.type = DevEv::CLOSED; rxDec.reset(); txFirst = -1; out.push_back(d); break;
+      case sim::EV_OPEN: fifo.clear(); d.type = DevEv::OPENED; rxDec.reset(); txFirst = -1; out.push_back(d); break;
+      case sim::EV_DEVSTATUS:
+        if (e.s.find("overflow") != std::string::npos) { fifo.clear(); d.type = DevEv::IOERR; out.push_back(d); }
+        break;
+      case sim::EV_REQUEST:
+      case sim::EV_MESSAGE:
+        d.type = DevEv::OTHER;
+        out.push_back(d);
+        break;
+      default:
+        break;
+    }
+  }
+  flush();
+  return out;
 }
+
+int masterNumber(uint8_t a) {
+  auto idx = [](uint8_t n) { return n == 0 ? 1 : n == 1 ? 2 : n == 3 ? 3 : n == 7 ? 4 : n == 0xf ? 5 : 0; };
+  int lo = idx(a & 0xf), hi = idx(a >> 4);
+  return lo && hi ? 5 * (lo - 1) + hi : 0;
+}
+
+struct ReqState {
+  bool submitted = false, finalNotified = false, returned = false, destroyed = false, rejected = false;
+  int notifies = 0;
+  int lastResult = 0;
+  Bytes lastSlave;
+};
+
+class Monitor {
+ public:
+  Monitor(const RunData& rd, hz::RunResult* res) : rd(rd), res(res) {}
+  void run();
+
+ private:
+  const RunData& rd;
+  hz::RunResult* res;
+  // bus knowledge of ebusd
+  bool lastRxWasSynChunkEnd = false;   // the last handed symbol is a SYN that ended its read() result
+  bool lastRxWasSyn = false;
+  bool prevRxLastOfChunk = true;
+  int lockout = 0;                      // SYNs still to wait after a lost arbitration
+  bool silent = true;                   // after an error: no transmission until the next SYN was handed over
+  const char* silentWhy = "start";
+  int64_t lastRxT = -1;
+  int echoPending = -1;                 // byte written and not yet echoed
+  enum EchoKind { EK_NONE, EK_ARB, EK_OWN, EK_AUTOSYN, EK_ANSWER, EK_UNKNOWN } echoKind = EK_NONE;
+  bool enhArbArmed = false;
+  uint8_t enhArbAddr = 0;
+  bool isSynGenerator = false;
+  // own exchange
+  bool own = false;
+  std::vector<MasterRef> cands;
+  bool ownJudged = true;
+  // passive tracking for answer mode
+  Bytes pm;          // unescaped master bytes of the telegram in progress (passive)
+  bool pmEsc = false, pmDead = false, pmComplete = false;
+  uint8_t pmCrc = 0;
+  int pmAttempt = 0;
+  SlaveRef slave;
+  // requests
+  std::map<uint64_t, ReqState> rq;
+  std::map<std::string, std::deque<Bytes>> validAwaitingNotify;  // content -> slave data of valid exchanges not yet reported
+  std::map<std::string, int> validAwaitingMsg;
+  uint64_t nExchanges = 0, nValid = 0, nAnswered = 0;
+
+  void violate(const char* prop, const char* cls, const std::string& sig, const DevEv& d, const std::string& detail) {
+    char buf[64];
+    snprintf(buf, sizeof(buf), " at %.3fms", d.t / 1e6);
+    res->violate(prop, cls, sig, detail + buf);
+  }
+  bool anyPending(uint8_t qq) const {
+    for (auto& r : rq) {
+      const ReqState& s = r.second;
+      if (!s.submitted || s.rejected) continue;
+      auto it = rd.reqs.find(r.first);
+      if (it == rd.reqs.end()) continue;
+      bool done = it->second.kind == "sendwait" ? s.returned : s.finalNotified;
+      if (!done && it->second.master[0] == qq) return true;
+    }
+    return false;
+  }
+  std::vector<Bytes> pendingMasters(uint8_t qq) const {
+    std::vector<Bytes> v;
+    for (auto& r : rq) {
+      const ReqState& s = r.second;
+      if (!s.submitted || s.rejected) continue;
+      auto it = rd.reqs.find(r.first);
+      if (it == rd.reqs.end()) continue;
+      bool done = it->second.kind == "sendwait" ? s.returned : s.finalNotified;
+      if (!done && it->second.master[0] == qq) v.push_back(it->second.master);
+    }
+    return v;
+  }
+  void endOwn(const char* why) {
+    if (!own) return;
+    for (auto& c : cands) c.fail(why);
+    own = false;
+    cands.clear();
+  }
+  void startOwn(uint8_t qq) {
+    own = true;
+    ownJudged = true;
+    cands.clear();
+    for (auto& m : pendingMasters(qq)) cands.emplace_back(m);
+    nExchanges++;
+  }
+  void noteValidIfAny() {
+    // called after every step of the own exchange: record the validity point once
+    for (auto& c : cands) {
+      if (c.valid && !c.failWhy[0]) {
+        std::string key = ref::hex(c.master);
+        validAwaitingNotify[key].push_back(c.slave);
+        validAwaitingMsg[key]++;
+        nValid++;
+        // all candidates with the same content are equivalent; keep just this one from now on
+        MasterRef keep = c;
+        keep.failWhy = "v";   // marker: validity already recorded
+        cands.clear();
+        cands.push_back(keep);
+        return;
+      }
+    }
+  }
+  void onTx(const DevEv& d);
+  void onRx(const DevEv& d);
+  void onOther(const DevEv& d);
+  void passiveRx(uint8_t b, const DevEv& d);
+  const AnswerInfo* lookupAnswer(const Bytes& m) const;
+  void resetBusKnowledge(const char* why) {
+    endOwn(why);
+    echoPending = -1;
+    echoKind = EK_NONE;
+    silent = true;
+    silentWhy = why;
+    lastRxWasSyn = lastRxWasSynChunkEnd = false;
+    enhArbArmed = false;
+    slave = SlaveRef();
+    pm.clear(); pmEsc = false; pmDead = true; pmComplete = false;
+  }
+};
+
+const AnswerInfo* Monitor::lookupAnswer(const Bytes& m) const {
+  // reference answer table: longest matching ID prefix, source restricted entries first at equal length
+  if (m.size() < 5) return nullptr;
+  const AnswerInfo* best = nullptr;
+  size_t nn = m[4];
+  for (size_t ai = 0; ai < rd.answers.size(); ai++) {
+    const AnswerInfo& a = rd.answers[ai];
+    if (!a.accepted) continue;
+    // a later registration for the same (source, destination, command, ID) replaces an earlier one
+    bool replaced = false;
+    for (size_t aj = ai + 1; aj < rd.answers.size(); aj++) {
+      const AnswerInfo& o = rd.answers[aj];
+      if (o.accepted && o.src == a.src && o.dst == a.dst && o.pb == a.pb && o.sb == a.sb && o.id == a.id) replaced = true;
+    }
+    if (replaced) continue;
+    if (a.dst != m[1] || a.pb != m[2] || a.sb != m[3]) continue;
+    if (a.src >= 0 && a.src != m[0]) continue;
+    if (a.id.size() > nn || a.id.size() + 5 > m.size()) continue;
+    bool eq = true;
+    for (size_t i = 0; i < a.id.size(); i++) if (m[5 + i] != a.id[i]) eq = false;
+    if (!eq) continue;
+    if (ref::isMaster(m[1])) {
+      // master destination: the registered data is the expected data tail; its length must fit
+      size_t tail = a.data.empty() ? 0 : a.data[0];
+      if (a.id.size() + tail != nn) continue;
+    }
+    if (!best || a.id.size() > best->id.size() || (a.id.size() == best->id.size() && (a.src >= 0 || best->src < 0))) best = &a;  // ties: the later registration replaced the earlier one
+  }
+  return best;
+}
+
+void Monitor::onTx(const DevEv& d) {
+  uint8_t b = d.b;
+  if (rd.hc.readOnly) {
+    violate("C03", "write-in-readonly", "any", d, "ebusd transmitted in read-only mode");
+    return;
+  }
+  if (echoPending >= 0 && !rd.bc.enhanced) {
+    violate("C03", "write-before-echo", "plain", d, "a symbol was written before the echo of the previous one was handed over");
+  }
+  if (own) {
+    // continuation of the own telegram
+    bool ok = false;
+    for (auto& c : cands) if (c.accepts(b)) ok = true;
+    if (!ok && !cands.empty()) {
+      const MasterRef& c = cands[0];
+      int n = c.nextTx();
+      char buf[200];
+      if (n == -1) {
+        snprintf(buf, sizeof(buf), "wrote %02x while the exchange was %s", b, c.st == MasterRef::FAILED ? c.failWhy : "waiting for the other participant");
+        if (c.st == MasterRef::FAILED || c.st == MasterRef::DONE) violate("C03", "write-after-error-before-syn", c.st == MasterRef::FAILED ? c.failWhy : "done", d, buf);
+        else violate("C03", "write-while-waiting", "own-exchange", d, buf);
+      } else {
+        const char* where = c.st == MasterRef::SEND ? (c.attempt ? "repeated-command" : "command") : c.st == MasterRef::SEND_RESPACK ? "response-ack" : "end";
+        snprintf(buf, sizeof(buf), "wrote %02x, reference expects %s%02x (%s, request %s)", b, n < 0 ? "NAK/SYN, not " : "", n < 0 ? b : n, where, ref::hex(c.master).c_str());
+        std::string sig = where;
+        if (c.st == MasterRef::SEND_RESPACK) sig += c.respCrcOk ? " expected-ACK" : " expected-NAK";
+        if (c.st == MasterRef::SEND_NAK_OR_SYN) sig = "response-ack-after-second-bad-crc";
+        violate("C02", "wrong-byte", sig, d, buf);
+      }
+      ownJudged = false;
+      endOwn("unexpected write");
+      silent = true;
+      silentWhy = "unjudged";
+      echoPending = b;
+      echoKind = EK_UNKNOWN;
+      return;
+    }
+    if (cands.empty()) {
+      // won without a pending request: already reported at the arbitration; follow nothing
+      echoPending = b;
+      echoKind = EK_UNKNOWN;
+      return;
+    }
+    std::vector<MasterRef> keep;
+    for (auto& c : cands) if (c.accepts(b)) keep.push_back(c);
+    cands.swap(keep);
+    echoPending = b;
+    echoKind = EK_OWN;
+    return;
+  }
+  if (slave.st == SlaveRef::SEND_ACK || slave.st == SlaveRef::SEND_NAK || slave.st == SlaveRef::SEND_RESP) {
+    int n = slave.nextTx();
+    if (n != b) {
+      char buf[160];
+      snprintf(buf, sizeof(buf), "answering %s: wrote %02x, reference expects %02x", ref::hex(slave.master).c_str(), b, n);
+      violate("C15", "wrong-answer-byte", slave.st == SlaveRef::SEND_RESP ? "response" : slave.st == SlaveRef::SEND_ACK ? "expected-ACK" : "expected-NAK", d, buf);
+      slave.st = SlaveRef::FAILED;
+    }
+    echoPending = b;
+    echoKind = EK_ANSWER;
+    return;
+  }
+  if (b == ref::SYN) {
+    // AUTO-SYN
+    int64_t need = (isSynGenerator ? 40 : 51 + 10 * masterNumber(rd.hc.own)) * MS;
+    int64_t quiet = lastRxT < 0 ? (1LL << 60) : d.t - lastRxT;
+    if (!rd.hc.generateSyn) violate("C03", "autosyn-not-configured", "syn", d, "SYN written although SYN generation is off and no exchange is being ended");
+    else if (quiet < need - 1 * MS) {
+      char buf[120];
+      snprintf(buf, sizeof(buf), "AUTO-SYN after only %.1f ms of silence (needs %lld)", quiet / 1e6, static_cast<long long>(need / MS));
+      violate("C03", "autosyn-too-early", isSynGenerator ? "generator" : "candidate", d, buf);
+    }
+    echoPending = b;
+    echoKind = EK_AUTOSYN;
+    return;
+  }
+  // only an arbitration address is left
+  char buf[200];
+  if (b != rd.hc.own) {
+    snprintf(buf, sizeof(buf), "wrote %02x while passive (not the own address, no exchange, no answer due)", b);
+    // an ACK/NAK/response for a telegram that has no registered answer belongs to answer mode
+    if (pmComplete && !slave.master.empty() && slave.st == SlaveRef::NONE)
+      violate("C15", "answered-unregistered", "passive", d, buf);
+    else
+      violate("C03", "unsolicited-write", silent ? silentWhy : "passive", d, buf);
+    echoPending = b;
+    echoKind = EK_UNKNOWN;
+    return;
+  }
+  if (silent) {
+    snprintf(buf, sizeof(buf), "arbitration address written while bound to silence (%s)", silentWhy);
+    violate("C03", "write-after-error-before-syn", silentWhy, d, buf);
+  } else if (!lastRxWasSynChunkEnd) {
+    violate("C03", "arbitration-not-after-syn", lastRxWasSyn ? "syn-not-last-in-buffer" : "no-syn", d,
+            "arbitration address written although the last symbol handed over was not a lone SYN");
+  } else if (lockout > 0) {
+    violate("C03", "arbitration-too-early-after-loss", "first-syn-after-lost-arbitration", d, "arbitration at the first SYN after a lost arbitration");
+  }
+  if (!anyPending(b)) {
+    violate("C03", "arbitration-without-request", "no-pending-request", d, "arbitration address written although no request is pending");
+  }
+  echoPending = b;
+  echoKind = EK_ARB;
+}
+
+void Monitor::passiveRx(uint8_t b, const DevEv& d) {
+  // follow a foreign telegram far enough to know whether ebusd must answer it (C15)
+  if (pmDead) return;
+  if (slave.st == SlaveRef::WAIT_RESP_ACK) {
+    if (b == ref::ACK) { slave.st = SlaveRef::DONE; slave.completed = true; nAnswered++; }
+    else if (b == ref::NAK && slave.respAttempt == 0) { slave.respAttempt = 1; slave.pos = 0; slave.st = SlaveRef::SEND_RESP; }
+    else slave.st = SlaveRef::FAILED;
+    return;
+  }
+  if (pmComplete) return;
+  bool crcPos = pm.size() >= 5 && pm.size() == static_cast<size_t>(5 + pm[4]);
+  uint8_t u = b;
+  if (pmEsc) {
+    if (b > 1) { pmDead = true; return; }
+    u = b == 0 ? ref::ESC : ref::SYN;
+    pmEsc = false;
+    if (!crcPos) pmCrc = ref::crcStep(pmCrc, b);
+  } else if (b == ref::ESC) {
+    pmEsc = true;
+    if (!crcPos) pmCrc = ref::crcStep(pmCrc, b);
+    return;
+  } else if (!crcPos) {
+    pmCrc = ref::crcStep(pmCrc, b);
+  }
+  if (!crcPos) {
+    if (pm.size() == 0 && !ref::isMaster(u)) { pmDead = true; return; }
+    if (pm.size() == 1 && (!ref::isValidAddress(u) || u == pm[0])) { pmDead = true; return; }
+    pm.push_back(u);
+    if (pm.size() == 5 && pm[4] > 16) pmDead = true;
+    return;
+  }
+  pmComplete = true;
+  bool crcOk = u == pmCrc;
+  uint8_t zz = pm[1];
+  bool toOwn = rd.hc.answer && !rd.hc.readOnly && zz != ref::BROADCAST;
+  slave = SlaveRef();
+  slave.master = pm;
+  if (!toOwn) return;
+  const AnswerInfo* a = lookupAnswer(pm);
+  if (!a) return;
+  slave.toMaster = ref::isMaster(zz);
+  if (crcOk) {
+    slave.st = SlaveRef::SEND_ACK;
+    if (!slave.toMaster) {
+      slave.wire = ref::escaped(a->data);
+      ref::escapeInto(ref::crcOf(a->data), &slave.wire);
+    }
+  } else if (pmAttempt == 0) {
+    slave.st = SlaveRef::SEND_NAK;
+  }
+  (void)d;
+}
+
+void Monitor::onRx(const DevEv& d) {
+  uint8_t b = d.b;
+  // a required transmission that did not happen before the next symbol arrived (only judged if the previous
+  // symbol emptied ebusd's receive buffer, i.e. ebusd passed through its send step in between)
+  bool hadChance = prevRxLastOfChunk;
+  prevRxLastOfChunk = d.lastOfChunk;
+  if (echoPending < 0 && own && !cands.empty() && cands[0].nextTx() >= 0 && cands[0].st != MasterRef::SEND) {
+    // ebusd was due to transmit (response acknowledge / final SYN) but another symbol arrived first: somebody else is
+    // on the bus, the exchange is broken. It is a violation only if ebusd had the chance to transmit before.
+    int n = cands[0].nextTx();
+    if (hadChance) {
+      char buf[160];
+      snprintf(buf, sizeof(buf), "reference expects ebusd to write %02x (%s) but the next symbol %02x was read first", n,
+               cands[0].st == MasterRef::SEND_SYN ? "final SYN" : "response acknowledge", b);
+      violate("C02", "missing-byte", cands[0].st == MasterRef::SEND_SYN ? "final-SYN" : "response-ack", d, buf);
+    } else {
+      res->counters["c02.foreign_symbol_instead_of_own_turn"]++;
+    }
+    endOwn("foreign symbol");
+    silent = true;
+    silentWhy = "foreign-symbol-in-own-exchange";
+  }
+  if (echoPending < 0 && hadChance) {
+    if (slave.st == SlaveRef::SEND_ACK || slave.st == SlaveRef::SEND_NAK) {
+      char buf[200];
+      snprintf(buf, sizeof(buf), "telegram %s is addressed to an own address and matches a registered answer, but ebusd did not %s it", ref::hex(slave.master).c_str(),
+               slave.st == SlaveRef::SEND_ACK ? "acknowledge" : "NAK");
+      violate("C15", slave.st == SlaveRef::SEND_ACK ? "missing-ACK" : "missing-NAK", slave.st == SlaveRef::SEND_ACK ? "own-address good-CRC" : "own-address bad-CRC first-attempt", d, buf);
+      slave.st = SlaveRef::FAILED;
+    } else if (slave.st == SlaveRef::SEND_RESP) {
+      violate("C15", "missing-response", slave.pos == 0 ? "start" : "middle", d, "ebusd stopped sending its registered response");
+      slave.st = SlaveRef::FAILED;
+    }
+  }
+  lastRxT = d.t;
+  if (rd.bc.enhanced && d.arb) {
+    // arbitration result reported by the adapter
+    enhArbArmed = false;
+    if (d.arb == refenh::ARB_WON) {
+      if (!anyPending(b)) violate("C03", "arbitration-without-request", "no-pending-request", d, "the adapter won an arbitration that ebusd had requested without a pending request");
+      pm.clear(); pmDead = true;
+      startOwn(b);
+      lastRxWasSyn = lastRxWasSynChunkEnd = false;
+      return;
+    }
+    lockout = 2;
+    // the winner's telegram follows
+    pm.clear(); pmEsc = false; pmDead = false; pmComplete = false; pmCrc = 0; pmAttempt = 0;
+    slave = SlaveRef();
+    passiveRx(b, d);
+    lastRxWasSyn = lastRxWasSynChunkEnd = false;
+    return;
+  }
+  if (echoPending >= 0) {
+    int sent = echoPending;
+    EchoKind kind = echoKind;
+    echoPending = -1;
+    echoKind = EK_NONE;
+    if (kind == EK_ARB) {
+      if (b == sent) {
+        pm.clear(); pmDead = true;
+        startOwn(b);
+        lastRxWasSyn = lastRxWasSynChunkEnd = false;
+        return;
+      }
+      lockout = 2;
+      res->counters["c03.arbitration_lost"]++;
+      if (b == ref::SYN) { /* fall through to SYN handling */ }
+      else {
+        pm.clear(); pmEsc = false; pmDead = false; pmComplete = false; pmCrc = 0; pmAttempt = 0;
+        slave = SlaveRef();
+        passiveRx(b, d);
+        lastRxWasSyn = lastRxWasSynChunkEnd = false;
+        return;
+      }
+    } else if (kind == EK_OWN) {
+      if (b != sent) {
+        res->counters["c02.echo_mismatch_seen"]++;
+        endOwn("echo mismatch");
+        silent = true;
+        silentWhy = "echo-mismatch";
+        if (b != ref::SYN) { lastRxWasSyn = lastRxWasSynChunkEnd = false; return; }
+      } else {
+        for (auto& c : cands) c.onEchoOk(b);
+        noteValidIfAny();
+        if (!cands.empty() && cands[0].st == MasterRef::DONE) { own = false; cands.clear(); }
+        if (b != ref::SYN) { lastRxWasSyn = lastRxWasSynChunkEnd = false; return; }
+      }
+    } else if (kind == EK_AUTOSYN) {
+      if (b == ref::SYN) isSynGenerator = true;
+      else { silent = true; silentWhy = "autosyn-echo-mismatch"; lastRxWasSyn = lastRxWasSynChunkEnd = false; return; }
+    } else if (kind == EK_ANSWER) {
+      if (b != sent) {
+        slave.st = SlaveRef::FAILED;
+        silent = true;
+        silentWhy = "echo-mismatch";
+      } else if (slave.st == SlaveRef::SEND_ACK) {
+        if (slave.toMaster) { slave.st = SlaveRef::DONE; slave.completed = true; nAnswered++; }
+        else { slave.st = SlaveRef::SEND_RESP; slave.pos = 0; }
+      } else if (slave.st == SlaveRef::SEND_NAK) {
+        // the requester repeats the command once
+        slave.st = SlaveRef::NONE;
+        pm.clear(); pmEsc = false; pmDead = false; pmComplete = false; pmCrc = 0; pmAttempt = 1;
+      } else if (slave.st == SlaveRef::SEND_RESP) {
+        slave.pos++;
+        if (slave.pos >= slave.wire.size()) slave.st = SlaveRef::WAIT_RESP_ACK;
+      }
+      if (b != ref::SYN) { lastRxWasSyn = lastRxWasSynChunkEnd = false; return; }
+    } else {
+      if (b != ref::SYN) { lastRxWasSyn = lastRxWasSynChunkEnd = false; return; }
+    }
+  }
+  if (b == ref::SYN) {
+    if (own) {
+      // a SYN from elsewhere ends the exchange
+      endOwn("SYN received");
+    }
+    if (lockout > 0) lockout--;
+    silent = false;
+    lastRxWasSyn = true;
+    lastRxWasSynChunkEnd = d.lastOfChunk;
+    pm.clear(); pmEsc = false; pmDead = false; pmComplete = false; pmCrc = 0; pmAttempt = 0;
+    if (slave.completed && !slave.reported) violate("C15", "answer-not-reported", "md_answer", d, "a completed answer exchange was not reported as md_answer");
+    slave = SlaveRef();
+    return;
+  }
+  lastRxWasSyn = lastRxWasSynChunkEnd = false;
+  if (own) {
+    for (auto& c : cands) c.onRx(b);
+    noteValidIfAny();
+    return;
+  }
+  passiveRx(b, d);
+}
+
+void Monitor::onOther(const DevEv& d) {
+  const Ev& e = rd.hist.evs[d.histIndex];
+  if (e.kind == sim::EV_REQUEST) {
+    ReqState& s = rq[e.id];
+    auto it = rd.reqs.find(e.id);
+    if (it == rd.reqs.end()) return;
+    const ReqInfo& info = it->second;
+    std::string key = ref::hex(info.master);
+    char buf[240];
+    switch (e.a) {
+      case sim::RQ_SUBMIT:
+        s.submitted = true;
+        break;
+      case sim::RQ_NOTIFY: {
+        s.notifies++;
+        if (s.finalNotified) {
+          snprintf(buf, sizeof(buf), "request %llu (%s) notified again after its final notification", static_cast<unsigned long long>(e.id), info.kind.c_str());
+          violate("C04", "notified-twice", info.kind, d, buf);
+        }
+        if (e.s.find("POISONED") != std::string::npos) violate("C04", "touched-after-destruction", info.kind, d, "notify() on a destroyed request");
+        if (e.s.find("final") != std::string::npos) s.finalNotified = true;
+        s.lastResult = static_cast<int>(e.b);
+        s.lastSlave = e.bytes;
+        auto& q = validAwaitingNotify[key];
+        if (e.b == 0) {
+          if (q.empty()) {
+            snprintf(buf, sizeof(buf), "request %s notified with success but no valid exchange for it was seen on the device", key.c_str());
+            if (ownJudged) violate("C02", "false-success", ref::isMaster(info.master[1]) ? "MM" : info.master[1] == ref::BROADCAST ? "BC" : "MS", d, buf);
+          } else {
+            Bytes sl = q.front();
+            q.pop_front();
+            if (sl != e.bytes) {
+              snprintf(buf, sizeof(buf), "request %s: reported slave data %s, reference %s", key.c_str(), ref::hex(e.bytes).c_str(), ref::hex(sl).c_str());
+              violate("C02", "wrong-slave-data", "notify", d, buf);
+            }
+          }
+        } else if (!q.empty()) {
+          snprintf(buf, sizeof(buf), "request %s completed with error %lld although its exchange was valid", key.c_str(), static_cast<long long>(e.b));
+          violate("C02", "false-failure", "notify", d, buf);
+          q.pop_front();
+        }
+        break;
+      }
+      case sim::RQ_RETURN:
+        s.returned = true;
+        if (info.kind == "sendwait") {
+          auto& q = validAwaitingNotify[key];
+          if (e.b == 0) {
+            if (q.empty()) {
+              snprintf(buf, sizeof(buf), "sendAndWait(%s) returned success but no valid exchange for it was seen on the device", key.c_str());
+              if (ownJudged) violate("C02", "false-success", "sendAndWait", d, buf);
+            } else {
+              Bytes sl = q.back();
+              q.clear();
+              if (sl != e.bytes) {
+                snprintf(buf, sizeof(buf), "sendAndWait(%s): returned slave data %s, reference %s", key.c_str(), ref::hex(e.bytes).c_str(), ref::hex(sl).c_str());
+                violate("C02", "wrong-slave-data", "sendAndWait", d, buf);
+              }
+            }
+          } else if (!q.empty()) {
+            snprintf(buf, sizeof(buf), "sendAndWait(%s) returned error %lld although a valid exchange took place", key.c_str(), static_cast<long long>(e.b));
+            violate("C02", "false-failure", "sendAndWait", d, buf);
+            q.clear();
+          }
+        } else if (info.kind == "addwait") {
+          if (!s.finalNotified && e.b != -2 /* rejected in read-only mode */) {
+            snprintf(buf, sizeof(buf), "addRequest(wait) for %s returned (result %lld) without a final notification", key.c_str(), static_cast<long long>(e.b));
+            violate("C04", "released-without-completion", "addwait", d, buf);
+          }
+          if (s.finalNotified && (e.b != s.lastResult || e.bytes != s.lastSlave)) {
+            violate("C04", "wrong-result-delivered", "addwait", d, "waiter released with a result that is not the one its request was notified with");
+          }
+          if (!s.finalNotified) s.rejected = true;
+        } else {
+          s.rejected = true;   // fire: only recorded when addRequest refused it
+        }
+        break;
+      case sim::RQ_DESTROY:
+        if (s.destroyed) violate("C04", "destroyed-twice", info.kind, d, "request destroyed twice");
+        s.destroyed = true;
+        if (info.kind == "fire" && !s.finalNotified && !s.rejected && !rd.handlerDeleted) {
+          // destroyed by the handler without ever being completed (only legal at handler destruction)
+          bool atShutdown = false;
+          for (size_t k = d.histIndex; k < rd.hist.evs.size(); k++) if (rd.hist.evs[k].kind == sim::EV_NOTE && rd.hist.evs[k].s == "handler deleted") atShutdown = true;
+          if (!atShutdown) violate("C04", "destroyed-without-completion", "fire", d, "fire-and-forget request deleted without a final notification");
+        }
+        break;
+    }
+    return;
+  }
+  if (e.kind == sim::EV_MESSAGE) {
+    if (e.a == 1) {  // md_send
+      std::string key = ref::hex(e.bytes);
+      auto it = validAwaitingMsg.find(key);
+      if (it == validAwaitingMsg.end() || it->second <= 0) {
+        if (ownJudged) violate("C02", "sent-message-without-valid-exchange", "md_send", d, "md_send reported for " + key + " without a valid exchange");
+      } else {
+        it->second--;
+      }
+    } else if (e.a == 2) {  // md_answer
+      // the notification is issued when the exchange completes: after the requester's ACK (slave) or after the own ACK (master)
+      if (!slave.completed || slave.reported) violate("C15", "answer-reported-without-completion", slave.reported ? "twice" : "md_answer", d, "md_answer reported although the answer exchange did not complete (or twice)");
+      slave.reported = true;
+    }
+    return;
+  }
+  if (e.kind == sim::EV_FAULT && (e.s == "signal_off")) return;
+}
+
+void Monitor::run() {
+  std::vector<DevEv> evs = extract(rd, res);
+  for (const DevEv& d : evs) {
+    switch (d.type) {
+      case DevEv::TX: onTx(d); break;
+      case DevEv::RX: onRx(d); break;
+      case DevEv::ARBSTART:
+        if (rd.hc.readOnly) violate("C03", "write-in-readonly", "arbitration-request", d, "arbitration requested in read-only mode");
+        if (!anyPending(d.b)) violate("C03", "arbitration-without-request", "no-pending-request", d, "arbitration requested from the adapter although no request is pending");
+        if (lockout > 1) violate("C03", "arbitration-too-early-after-loss", "first-syn-after-lost-arbitration", d, "arbitration requested for the first SYN after a lost arbitration");
+        enhArbArmed = true;
+        enhArbAddr = d.b;
+        break;
+      case DevEv::ARBCANCEL: enhArbArmed = false; break;
+      case DevEv::TIMEOUT:
+        if (echoPending >= 0) {
+          // ebusd waited for its echo in vain
+          if (echoKind == EK_OWN || echoKind == EK_ARB) { endOwn("echo timeout"); }
+          if (echoKind == EK_ANSWER) slave.st = SlaveRef::FAILED;
+          echoPending = -1;
+          echoKind = EK_NONE;
+          silent = true;
+          silentWhy = "echo-timeout";
+        } else if (own) {
+          bool waiting = !cands.empty() && (cands[0].st == MasterRef::WAIT_ACK || cands[0].st == MasterRef::RECV_RESP);
+          if (waiting) { endOwn("timeout"); silent = true; silentWhy = "receive-timeout"; }
+        } else if (slave.st == SlaveRef::WAIT_RESP_ACK || slave.st == SlaveRef::WAIT_REPEAT) {
+          slave.st = SlaveRef::FAILED;
+        } else if (!pm.empty() && !pmComplete) {
+          pmDead = true;   // a passive telegram timed out
+        }
+        break;
+      case DevEv::IOERR:
+      case DevEv::CLOSED:
+      case DevEv::OPENED:
+        resetBusKnowledge(d.type == DevEv::IOERR ? "device-error" : d.type == DevEv::CLOSED ? "device-closed" : "device-opened");
+        if (d.type == DevEv::OPENED) { lockout = 0; isSynGenerator = false; lastRxT = -1; }
+        break;
+      case DevEv::OTHER: onOther(d); break;
+    }
+    // valid exchanges must be reported before the next exchange can begin; checked lazily at SYN symbols
+    if (d.type == DevEv::RX && d.b == ref::SYN) {
+      for (auto& q : validAwaitingNotify) {
+        // a sendAndWait caller picks its result up asynchronously; only notify based requests are strict
+        (void)q;
+      }
+    }
+  }
+  // end of run: every valid exchange must have been reported as success to someone
+  for (auto& q : validAwaitingNotify) {
+    if (q.second.empty()) continue;
+    bool stillWaiting = false;
+    for (auto& r : rd.reqs) if (ref::hex(r.second.master) == q.first && r.second.kind == "sendwait" && r.second.returnT < 0) stillWaiting = true;
+    if (stillWaiting) continue;
+    DevEv d;
+    d.t = rd.endT;
+    violate("C02", "success-not-reported", "end-of-run", d, "a valid exchange for " + q.first + " was never reported as success");
+  }
+  for (auto& q : validAwaitingMsg) {
+    if (q.second > 0) {
+      DevEv d;
+      d.t = rd.endT;
+      violate("C02", "sent-message-missing", "md_send", d, "valid exchange " + q.first + " was not reported as sent message");
+    }
+  }
+  // C04 end-of-run accounting
+  bool allDone = true;
+  for (auto& r : rd.reqs) {
+    const ReqInfo& info = r.second;
+    ReqState& s = rq[r.first];
+    if (!s.submitted) continue;
+    if (s.rejected) continue;
+    bool done = info.kind == "sendwait" ? s.returned : info.kind == "addwait" ? s.returned : (s.finalNotified && (s.destroyed || !rd.handlerDeleted));
+    if (info.kind == "fire" && s.finalNotified && !s.destroyed && rd.handlerDeleted) {
+      DevEv d; d.t = rd.endT;
+      violate("C04", "request-leaked", "fire", d, "a completed fire-and-forget request was never destroyed");
+    }
+    if (!done) {
+      allDone = false;
+      DevEv d; d.t = rd.endT;
+      char buf[200];
+      snprintf(buf, sizeof(buf), "request %llu (%s %s) submitted at %.1f ms was not completed %.1f s after the last fault", static_cast<unsigned long long>(r.first),
+               info.kind.c_str(), ref::hex(info.master).c_str(), s.submitted ? info.submitT / 1e6 : -1.0, (rd.endT - std::max(rd.lastFaultT, info.submitT)) / 1e9);
+      violate("C04", "request-never-completed", info.kind, d, buf);
+    }
+  }
+  (void)allDone;
+  res->counters["c02.exchanges"] += nExchanges;
+  res->counters["c02.valid_exchanges"] += nValid;
+  res->counters["c15.answers_completed"] += nAnswered;
+  if (nExchanges > 0) res->nontrivial = true;
+}
+
+}  // namespace
+
+void checkActive(const RunData& rd, hz::RunResult* res) {
+  Monitor m(rd, res);
+  m.run();
+}
+
+}  // namespace l1
